@@ -99,7 +99,7 @@ SetMaxR(n, path, v) ==
                             RECURSIVE W(_, _)
                             W(m, j) == IF j > Len(ks) THEN m ELSE W(PutAt(m, <<ks[j].s>>, SetMaxR(ks[j].n, rest, v)), j + 1)
                         IN W(n, 1)
-SetMax(doc, path, v) == SetMaxR(doc, Steppers(path), v)
+SetMax(doc, path, v) == SetMaxR(doc, Steppers(Bind(path, doc)), v)
 SetMin(doc, path, v) == MapAt(doc, LocsOnly(Locs(path, doc)), LAMBDA x : v)
 
 \* the walk meets something it cannot pass: an error is then an allowed outcome (see header)
@@ -122,7 +122,7 @@ Impossible(op, path) ==
     [] op \in {"Remove", "RemoveOne"} -> LastFrag(path) \in {"none", "root", "at", "bracket", "desc"}
     [] OTHER -> LastFrag(path) \in {"none", "desc"}
 Blocked(doc, op, path) == Impossible(op, path) \/ HasDesc(path)
-                          \/ BlockedR(doc, Steppers(path), op \in {"Set", "SetOne"})
+                          \/ BlockedR(doc, Steppers(Bind(path, doc)), op \in {"Set", "SetOne"})
 
 \* ------------------------------------------------------------------ modifiers (menu of the checks)
 ApplyMod(md, x) == CASE md.m = "const" -> md.v [] md.m = "wrap" -> ANode(<<x>>) [] OTHER -> x    \* "same": reports unchanged
